@@ -2,5 +2,5 @@ package rules
 
 func init() {
 	Register("C10", "Decides structural necessary conditions of 'results stay intact and do not depend on history': (pool) nothing that aliases a pooled buffer escapes its user; (reset) the reset of every pooled struct clears every field and reset+Put run on all exits; (global) package-level state is immutable after initialisation. Does NOT decide value equality with a fresh process.",
-		poolRule("C10.pool"), c10reset, c10global, c10share("C10.share"), inplaceRule("C10.inplace"), unnamedOnlyRule("C10.unnamedonly"), freshResultRule("C10.fresh"), noInplaceRule("C10.noinplace"), c11extAs("C10.ext"), c10atomic, c10aliasin("C10.aliasin"), oncePanicRule("C10.oncepanic"), compileOrderRule("C10.compile"), ctorOrderRule("C10.ctor"))
+		poolRule("C10.pool"), c10reset, c10global, c10share("C10.share"), inplaceRule("C10.inplace"), unnamedOnlyRule("C10.unnamedonly"), freshResultRule("C10.fresh"), astFreshRule("C10.astfresh"), noInplaceRule("C10.noinplace"), c11extAs("C10.ext"), c10atomic, c10aliasin("C10.aliasin"), oncePanicRule("C10.oncepanic"), compileOrderRule("C10.compile"), ctorOrderRule("C10.ctor"))
 }
